@@ -71,8 +71,21 @@ def run(ctx):
     for i, t in enumerate(frontend.test_snippets()): texts['t%d' % i] = t
     for i in range(ctx.budget(700, 15000)): texts['s%d' % i] = program(ctx.rng)
     for i in range(ctx.budget(100, 2000)): texts['g%d' % i] = gen.gen_program(ctx.rng.getrandbits(40), tt=True)[0]
+    # loops whose body never reaches its bottom except through `continue` (which the analysis does not record): the back edge must
+    # still be there.  loop kind x where the continue sits x how the body ends; the continue executes a few times at run time
+    k = 0
+    for head in ('while (true)', 'for (;;)', 'while (x < 100)', 'for (int q = 0; q < 50; q += 1)'):
+        for cont in ('if (x < 5) { continue; }', 'if (x >= 5) { } else { continue; }', '{ if (x < 5) { continue; } }', 'if (x < 3) { continue; } if (x < 5) { { continue; } }'):
+            for tail, ret in (('return x;', True), ('return;', False), ('write(x); all_is_win();', False), ('if (x > 6) { return %s } else { return %s }', None)):
+                for r in ((True, False) if ret is None else (ret,)):
+                    t = tail % (('x;', '7;') if r else (';', ';')) if ret is None else tail
+                    body = '%s { x += 1; %s %s }' % (head, cont, t)
+                    after = '' if head in ('while (true)', 'for (;;)') else (' return 0;' if r else ' return;')
+                    texts['sk%d' % k] = ('%s f(int x) { %s%s }\nempty other() { write("OTHER"); }\nempty @is_you() { %s write("end"); }'
+                                         % ('int' if r else 'empty', body, after, 'write(f(2));' if r else 'f(2);'))
+                    k += 1
     frontend.exit_suite(ctx, texts)
-    frontend.tc_suite(ctx, {k: v for k, v in texts.items() if k.startswith('s')})
+    frontend.tc_suite(ctx, {k: v for k, v in texts.items() if k.startswith('s')})    # ('s…' shapes and 'sk…' continue loops)
     frontend.tc_suite(ctx, {k: v for k, v in list(texts.items())[:300]}, lint=True)
     # run the accepted shapes with the fall-through monitor
     jobs = [(k, v, [], 2, 300, False, 200000) for k, v in texts.items() if k.startswith('s')]
